@@ -154,24 +154,38 @@ package decor
 //@   ensures  honest: result1 >= 0 && dw(result0) == result1
 
 //@ func (onCompleteWrapper).Decor
-//@   props    C07 C12
+//@   props    C07 C12 C03
 //@   modifies pkgstate("decor"), sent("chan int"), recvd("chan int")
 //@   ensures  honest: result1 >= 0 && dw(result0) == result1
+//@   ensures  swapped: s.Completed ==> called("decor.Decorator.Format") == old(called("decor.Decorator.Format")) + 1 && calledWith("decor.Decorator.Format", 1) == d.msg
+//@              && result0 == returned("decor.Decorator.Format", 0) && result1 == returned("decor.Decorator.Format", 1) && called("decor.Decorator.Decor") == old(called("decor.Decorator.Decor"))
+//@   ensures  passthrough: !s.Completed ==> called("decor.Decorator.Decor") == old(called("decor.Decorator.Decor")) + 1 && calledWith("decor.Decorator.Decor", 1) == s
+//@              && result0 == returned("decor.Decorator.Decor", 0) && result1 == returned("decor.Decorator.Decor", 1) && called("decor.Decorator.Format") == old(called("decor.Decorator.Format"))
 
 //@ func (onAbortWrapper).Decor
-//@   props    C07 C12
+//@   props    C07 C12 C03
 //@   modifies pkgstate("decor"), sent("chan int"), recvd("chan int")
 //@   ensures  honest: result1 >= 0 && dw(result0) == result1
+//@   ensures  swapped: s.Aborted ==> called("decor.Decorator.Format") == old(called("decor.Decorator.Format")) + 1 && calledWith("decor.Decorator.Format", 1) == d.msg
+//@              && result0 == returned("decor.Decorator.Format", 0) && result1 == returned("decor.Decorator.Format", 1) && called("decor.Decorator.Decor") == old(called("decor.Decorator.Decor"))
+//@   ensures  passthrough: !s.Aborted ==> called("decor.Decorator.Decor") == old(called("decor.Decorator.Decor")) + 1 && calledWith("decor.Decorator.Decor", 1) == s
+//@              && result0 == returned("decor.Decorator.Decor", 0) && result1 == returned("decor.Decorator.Decor", 1) && called("decor.Decorator.Format") == old(called("decor.Decorator.Format"))
 
 //@ func (onCompleteMetaWrapper).Decor
-//@   props    C07 C12
+//@   props    C07 C12 C03
 //@   modifies pkgstate("decor"), sent("chan int"), recvd("chan int")
 //@   ensures  honest: result1 >= 0 && dw(result0) == result1
+//@   ensures  inner: called("decor.Decorator.Decor") == old(called("decor.Decorator.Decor")) + 1 && calledWith("decor.Decorator.Decor", 1) == s && result1 == returned("decor.Decorator.Decor", 1)
+//@   ensures  decorated: s.Completed ==> called("decor_onCompleteMetaWrapper.fn") == old(called("decor_onCompleteMetaWrapper.fn")) + 1 && calledWith("decor_onCompleteMetaWrapper.fn", 0) == returned("decor.Decorator.Decor", 0) && result0 == returned("decor_onCompleteMetaWrapper.fn", 0)
+//@   ensures  plain: !s.Completed ==> called("decor_onCompleteMetaWrapper.fn") == old(called("decor_onCompleteMetaWrapper.fn")) && result0 == returned("decor.Decorator.Decor", 0)
 
 //@ func (onAbortMetaWrapper).Decor
-//@   props    C07 C12
+//@   props    C07 C12 C03
 //@   modifies pkgstate("decor"), sent("chan int"), recvd("chan int")
 //@   ensures  honest: result1 >= 0 && dw(result0) == result1
+//@   ensures  inner: called("decor.Decorator.Decor") == old(called("decor.Decorator.Decor")) + 1 && calledWith("decor.Decorator.Decor", 1) == s && result1 == returned("decor.Decorator.Decor", 1)
+//@   ensures  decorated: s.Aborted ==> called("decor_onAbortMetaWrapper.fn") == old(called("decor_onAbortMetaWrapper.fn")) + 1 && calledWith("decor_onAbortMetaWrapper.fn", 0) == returned("decor.Decorator.Decor", 0) && result0 == returned("decor_onAbortMetaWrapper.fn", 0)
+//@   ensures  plain: !s.Aborted ==> called("decor_onAbortMetaWrapper.fn") == old(called("decor_onAbortMetaWrapper.fn")) && result0 == returned("decor.Decorator.Decor", 0)
 
 // constructors (they establish the struct invariants above)
 
@@ -333,6 +347,17 @@ package decor
 //@ func (*medianWindow).Swap
 //@   props    C02 C20
 //@   requires s != nil && 0 <= i && i < 3 && 0 <= j && j < 3
+// the window holds the last three samples: Add drops the oldest, Value reads without
+// disturbing it (it sorts a copy)
+//@ func (*medianWindow).Add
+//@   props    C02 C20
+//@   requires s != nil
+//@   ensures  shifted: s[0] == old(s[1]) && s[1] == old(s[2]) && s[2] == value
+//@ func (*medianWindow).Value
+//@   props    C02 C20
+//@   requires s != nil
+//@   modifies nothing
+//@   ensures  member: result == s[0] || result == s[1] || result == s[2]
 //@ func (*medianWindow).Set
 //@   props    C02 C20
 //@   requires s != nil
